@@ -403,6 +403,8 @@ fn sc_farm_lifecycle(t: &mut Tracer, fee: Coin, reward_denom: &str, name: &str) 
     w.advance(31 * DAY);
     w.create_farm(&d, &lp, None, None, reward.clone(), Some("late_not_expired".into()), &exact); // not yet expired -> limit
     w.advance(DAY);
+    w.close_farm(&d, "m-h1", &[]); // expired farm of somebody else: still only its owner or the contract owner may close it
+    w.close_farm(&c, "m-h1", &[]);
     w.create_farm(&d, &lp, None, None, reward.clone(), Some("late".into()), &exact); // expired -> auto close of h1,h2
     w.claim(&b, None, &[]);
     w.claim(&c, None, &[]);
